@@ -52,7 +52,7 @@ class C02(Spec):
     variant = "plain"
     shard = 12
     timeout = 900
-    env = {"PV_CASE_TIMEOUT": "60"}
+    env = {"PV_CASE_TIMEOUT": "150"}
     rule = ("Q: requests built with the real client's request builder (all nine methods, with and without a body; paths of 0-3 segments, 0-4 "
             "query parameters incl. empty values, 0-4 cookies, 0-4 registered typed headers out of 14 (made by the header registry, filled with parse(), given to the builder; reported by the handler as the typed object it received writes itself), bodies empty / ending in CR / containing CRLFCRLF, bodies of 3-32 MB (more than the socket takes at once: the client has to wait for the socket and go on) and "
             "'0 CRLF CRLF' / arbitrary octets up to 5 kB) sent through a capturing proxy to a live endpoint: the captured "
@@ -135,7 +135,10 @@ class C02(Spec):
         if t[0] == "QT":
             want = {"n": "QT first=R second=F", "e": "QT first=F second=F body=1", "c": "QT first=F second=F", "s": "QT rounds=25 rejected=25"}[t[3]]
             if impl != want:
-                return "a %s-byte POST to a scripted server (mode %s): %s, expected %s" % (t[1], t[3], impl, want)
+                # a script of sleeps and time-outs: run it again, alone, before it counts (a loaded machine stretches it)
+                again, _ = pv.run_parallel([pv.build_harness(self.harness, self.variant)], [case], shard=1, env=self.env)
+                if again[0] != want:
+                    return "a %s-byte POST to a scripted server (mode %s): %s (and %s when run again alone), expected %s" % (t[1], t[3], impl, again[0], want)
             return None
         if t[0] == "QB":
             want = "QB promise=F answer=%s len=%s content=1" % (pv.hexs(("got " + t[1]).encode()), t[1])
